@@ -69,6 +69,12 @@ CHECKS = {
  'C17': (['asan'], 'event-log monitor: strings rendered from generator-owned syntax trees (conventional precedence/associativity, whitespace, redundant parentheses, literals, implicit multiplication, aliases) parsed by the real parser and compared by value (mpmath) with the tree built directly through the API; parse errors on grammar strings are violations',
          'The expected reading of every string is computed by the generator, never by a second call into the parser.',
          'Exponent operands and huge literals are kept small/in additive position (resource limits are not syntax); bare 2x**2 is not generated.', 'DESIGN.md 3/C17'),
+ 'C37': (['asan'], 'event-log monitor: cse output substituted back by the monitor on tree dumps (last to first) and compared by value (mpmath) with every input; freshness/uniqueness/ordering of replacement symbols and output count checked structurally',
+         'Lists of expressions with planted sharing (sub-trees, sub-sums, sub-products, negated commons, pre-existing x0/x1 names) are factored by the real cse.',
+         'Value comparison at generic complex points; structural eq after substitution is not required (canonical form may differ).', 'DESIGN.md 3/C37'),
+ 'C39': (['asan'], 'event-log monitor: free_symbols / has_symbol / function_symbols / atoms compared with an independent walk of the tree dump using the binding rule of Subs; coeff judged by reconstruction (sum coeff*x**n eq p) through the library eq',
+         'Expressions with function symbols, Derivative and Subs nodes (directly built and library-produced), relationals and Piecewise; polynomials and Laurent polynomials with symbolic coefficients.',
+         'Set-builder dummies (ImageSet/ConditionSet) are not generated; atoms clauses are judged on binder-free expressions only.', 'DESIGN.md 3/C39'),
 }
 
 def main():
